@@ -175,6 +175,14 @@ func genProject(r *rand.Rand, o genOpts) *projSpec {
 				p.Files[filepath.Join(dir, d, "fr", "other.txt")] = "salut\n"
 			}
 		}
+		if r.IntN(100) < 20 {
+			// sources named by a glob: adding or deleting a matching file changes the input set
+			d := "gdir_" + t.Name
+			t.GlobDirs = append(t.GlobDirs, d)
+			for k := 0; k < 1+r.IntN(3); k++ {
+				p.Files[filepath.Join(dir, d, fmt.Sprintf("g%d.txt", k))] = fmt.Sprintf("glob file %d of %s v0\n", k, t.Name)
+			}
+		}
 		if o.GenSources && r.IntN(100) < 35 {
 			// use a file generated by a later target as a source
 			var cands []int
@@ -386,6 +394,22 @@ func (p *projSpec) inputItems(t *targetSpec) map[string]string {
 		}
 	}
 	out["shape|"+t.label()] = strings.Join(shape, ",") + "|" + t.Form + fmt.Sprint(t.SelfParam) + "|" + strings.Join(p.depReads(t), ",")
+	for _, g := range t.GlobDirs {
+		// exactly the files the glob "<dir>/*.txt" matches: direct children only
+		rel := p.sourceRel(t, g)
+		var names []string
+		for f := range p.Files {
+			if strings.HasPrefix(f, rel+"/") && !strings.Contains(strings.TrimPrefix(f, rel+"/"), "/") && strings.HasSuffix(f, ".txt") {
+				names = append(names, f)
+			}
+		}
+		sort.Strings(names)
+		var sb strings.Builder
+		for _, n := range names {
+			fmt.Fprintf(&sb, "%s\x00%s\x00", strings.TrimPrefix(n, rel), p.Files[n])
+		}
+		out["glob|"+rel] = sb.String()
+	}
 	for _, s := range t.Sources {
 		rel := p.sourceRel(t, s)
 		if p.generatorOf(rel) != nil {
